@@ -28,10 +28,14 @@ EXPLANATION = (
 
 def run(ctx: Ctx):
     ctx.attempt(move_bookkeeping, ctx)
+    ctx.attempt(move_rejections, ctx)
     ctx.attempt(partition, ctx)
     ctx.attempt(split, ctx)
     ctx.attempt(leaving, ctx)
     ctx.attempt(arrival_enterable, ctx)
+    # the vehicle-update phase threads its state: what one vehicle's update produced is what the next vehicle is stepped on, and a failed
+    # update keeps what the earlier vehicles of the step did (a reducer that falls back to the phase's initial state undoes them all)
+    ctx.attempt(rules.rule_fold_threading, ctx, "D2", ctx.repo.func("nrel/hive/state/simulation_state/update/step_simulation_ops.py", "perform_vehicle_state_updates"), 1)
     from . import c02 as _c02
     ctx.attempt(_c02.stall_test, ctx)  # the test the arrival at a base relies on
     # continuity at the start of a journey: move() drives a route from the route's own first link, so a travelling activity may only be
@@ -97,6 +101,30 @@ def _move_parts(committed: ast.AST, consumed: str, trav: str, vmethods):
 
 
 ALL_PARTS = ("energy", "position", "odometer", "route", "nothing-else")
+
+
+def move_rejections(ctx: Ctx):
+    """move() hands back no state — `(None, None)`, which its callers read as "nothing to do" and return on before the drop-off / the
+    arrival — only when the traversal itself produced none. A vehicle whose route is already finished still gets its (empty) route
+    written back and a state returned, so that the activity's own update (drop-off, terminal transition) runs on it."""
+    fn = ctx.repo.func(VO, "move")
+    n = 0
+    for p in flow.paths(fn.node):
+        if p.kind != "return" or flow.classify_result(p.value) not in ("reject", "none"):
+            continue
+        n += 1
+        deciding = [c for c in p.conds if isinstance(c.pol, bool) and c.test is not None and flow._const_truth(c.test) is None]
+        last = deciding[-1] if deciding else None
+        k, kpol = flow._atom_key(last.test) if last is not None else ("", True)
+        if last is not None and last.pol is False:
+            kpol = not kpol
+        ok = last is not None and k.startswith("traverse(") and k.endswith("[1] is None") and kpol is True
+        ctx.check(ok, "D1", "DU.move", "move() returns no state only when the traversal produced none", fn, p.end,
+                  why_ok="decided by the traversal's own result",
+                  why_bad=f"move() returns (None, None) because `{('' if kpol else 'not ') + k[:120]}`: its callers treat that as 'nothing happened' and return before acting on the moved "
+                          f"vehicle — a trip whose route is already finished is never dropped off, an arrival never handed over",
+                  construct=f"move:reject:{k[:80]}")
+    return n
 
 
 def move_bookkeeping(ctx: Ctx, parts=ALL_PARTS):
